@@ -574,6 +574,8 @@ Fixpoint enc_dop (fuel : nat) (d : dop) (v : value) (s : estate) {struct fuel} :
     | DSimple dc c pt =>
       do _ <- guard (valid_phys c pt v) ERej;
       do iv <- p2i c v;
+      (* since the fix commit: a conversion result outside the internal limits (rounding) is rejected *)
+      do _ <- guard (valid_int c (dct_bt dc) iv) ERej;
       enc_dct dc iv s
     | DStruct ps bs =>
       let orig_pos := e_cur s in
